@@ -103,6 +103,25 @@ def native_response_ok(o, tok):
     """independent reference check on a concrete native observation: is `out` the IEEE 488.2 encoding of the scripted value?"""
     if o.get('panic'):
         return False
+    kind, _, val = tok.partition(':')
+    if kind in ('f32', 'f64'):
+        import math
+        import struct
+        x = struct.unpack('<f', struct.pack('<I', int(val)))[0] if kind == 'f32' else struct.unpack('<d', struct.pack('<Q', int(val)))[0]
+        out = bytes.fromhex(o.get('out', ''))
+        if any(e[0] == 'err' for e in o.get('events', [])) or not out.endswith(b'\n'):
+            return False
+        if math.isnan(x):
+            return out == b'9.91E+37\n'
+        if math.isinf(x):
+            return out == (b'-' if x < 0 else b'') + b'9.9E+37\n'
+        try:
+            y = float(out[:-1].decode())
+        except ValueError:
+            return False
+        if kind == 'f32':
+            y = struct.unpack('<f', struct.pack('<f', y))[0]
+        return y == x and math.copysign(1.0, y) == math.copysign(1.0, x)
     exp = encode_token(tok)
     if exp is None:
         return True
